@@ -13,11 +13,12 @@ import impl
 from framework import Case, Finding
 
 PROP = "C19"
+GENERATED = ['Guards']  # generated files this check's tie depends on
 LEAN_MODULES = ["Properties.C19"]
 NEEDS_DTYPES = False
 LEVEL = "proof"
 RULE = (
-    "a generated family of 8 torch modules (1-3 tensor parameters, optional parameter, tuple return, multi-axis and expression annotations, "
+    "a generated family of 10 torch modules (1-3 tensor parameters, optional parameter, tuple return, multi-axis and expression annotations, "
     "free scope provider) x {eager, torch.jit.trace, torch.jit.script, torch.compile(backend='eager')} (thorough adds aot_eager) x "
     "{conforming input: outputs torch.equal to the undecorated twin's; non-conforming input: the dltype error class under eager, script "
     "and compile}. non-trivial = every (module, mode, input kind) triple"
@@ -68,6 +69,16 @@ class M7(torch.nn.Module):
     def forward(self, x: Annotated[torch.Tensor, dltype.FloatTensor["b c"]], w: Annotated[torch.Tensor, dltype.FloatTensor["c"]], z: Annotated[torch.Tensor, dltype.IntTensor["b"]]) -> Annotated[torch.Tensor, dltype.FloatTensor["b"]]:
         return (x * w).sum(1) + z
 
+class M9(torch.nn.Module):
+    DEC
+    def forward(self, x: Annotated[torch.Tensor, dltype.FloatTensor["b c"]], y: Annotated[torch.Tensor, dltype.FloatTensor["b c*2"]]) -> Annotated[torch.Tensor, dltype.FloatTensor["b c*3"]]:
+        return torch.cat([x, y], dim=1)
+
+class M10(torch.nn.Module):
+    DEC
+    def forward(self, x: Annotated[torch.Tensor, dltype.FloatTensor["*batch c"]], y: Annotated[torch.Tensor, dltype.FloatTensor["*batch c+1"]]) -> Annotated[torch.Tensor, dltype.FloatTensor["*batch c"]]:
+        return x + y[..., :-1]
+
 class M8(torch.nn.Module):
     DEC
     def forward(self, x: Annotated[torch.Tensor, dltype.FloatTensor["b c"]], m: Optional[Annotated[torch.Tensor, dltype.FloatTensor["b c"]]] = None) -> Annotated[torch.Tensor, dltype.FloatTensor["b c"]]:
@@ -96,6 +107,8 @@ def family():
         "M6": ((r(2, 3),), (r(2, 4),)),
         "M7": ((r(2, 3), r(3), torch.ones(2, dtype=torch.int32)), (r(2, 3), r(4), torch.ones(2, dtype=torch.int32))),
         "M8": ((r(2, 3),), (r(2, 3, 1),)),
+        "M9": ((r(2, 3), r(2, 6)), (r(2, 3), r(2, 5))),
+        "M10": ((r(2, 4, 3), r(2, 4, 4)), (r(2, 4, 3), r(2, 5, 4))),
     }
     return dec_ns, und_ns, inputs
 
